@@ -387,7 +387,16 @@ Value icinga::operator%(const Value& lhs, const Value& rhs)
 		if (static_cast<double>(rhs) == 0)
 			BOOST_THROW_EXCEPTION(std::invalid_argument("Right-hand side argument for operator % is 0."));
 
-		return static_cast<int>(lhs) % static_cast<int>(rhs);
+		int ilhs = static_cast<int>(lhs);
+		int irhs = static_cast<int>(rhs);
+
+		if (irhs == 0)
+			BOOST_THROW_EXCEPTION(std::invalid_argument("Right-hand side argument for operator % is 0."));
+
+		if (irhs == -1)
+			return 0;
+
+		return ilhs % irhs;
 	} else
 		BOOST_THROW_EXCEPTION(std::invalid_argument("Operator % cannot be applied to values of type '" + lhs.GetTypeName() + "' and '" + rhs.GetTypeName() + "'"));
 }
